@@ -24,3 +24,9 @@ func raceRelease(p *int64) { runtime.RaceRelease(unsafe.Pointer(p)) }
 
 //go:norace
 func raceReleaseMerge(p *int64) { runtime.RaceReleaseMerge(unsafe.Pointer(p)) }
+
+//go:norace
+func raceAcquireAddr(p unsafe.Pointer) { runtime.RaceAcquire(p) }
+
+//go:norace
+func raceReleaseMergeAddr(p unsafe.Pointer) { runtime.RaceReleaseMerge(p) }
